@@ -43,6 +43,39 @@ SLOTS = LEGAL + ["nope"]                     # what one PDU of a v2 datagram can
 LENS = (0, 148, 296, 444, 592, 740)
 
 _env = {}
+LIMIT = 20            # recorded violations (<= 3 per key) after which a work item stops: nothing is gained by going on
+MAX_SEEN = 5000       # ... or this many violation instances of whatever key
+MAX_BRIEF = 3         # batched PDUs written out in a message
+
+
+class StopItem(Exception):
+    """the work item has recorded LIMIT violations"""
+
+
+class Budget(list):
+    def __init__(self):
+        list.__init__(self)
+        self.seen = 0
+        self.perkey = {}
+
+    def append(self, v):
+        self.seen += 1
+        n = self.perkey.get(v[0], 0)
+        if n < 3:
+            self.perkey[v[0]] = n + 1
+            list.append(self, v)
+        if len(self) >= LIMIT or self.seen >= MAX_SEEN:
+            raise StopItem()
+
+
+_cur = {}
+
+
+def _begin():
+    """violation list and counters of the work item being executed (set by dispatch)"""
+    if "out" not in _cur:
+        _cur.update(out=Budget(), cov=new_cov())
+    return _cur["out"], _cur["cov"]
 
 
 def env():
@@ -241,6 +274,12 @@ def first_diff(a, b):
     return None
 
 
+def oversized(c, data):
+    """a decoded batched-PDU list that cannot have come from `data`: flagged at once, never copied or compared"""
+    bp = c.get("bpdu") if isinstance(c, dict) else None
+    return isinstance(bp, list) and len(bp) > len(data) // 8
+
+
 def copy_vals(v):
     c = dict(v)
     if "bpdu" in c:
@@ -263,6 +302,11 @@ def judge_decode(pdu, data, tag, out, cov):
     got = n = None
     try:
         n = P.from_bytes(data)
+        if oversized(P.c, data):
+            out.append(("C17:%s:%s:runaway-result" % (pdu, tag), case,
+                        "from_bytes() of a %d-octet datagram returned %d batched PDUs (a batched PDU has at least 8 "
+                        "octets)" % (len(data), len(P.c["bpdu"]))))
+            return
         got = copy_vals(P.c)
     except DecodeError:
         pass
@@ -351,7 +395,7 @@ def brief(v):
         if isinstance(x, (bytes, bytearray)):
             o[k] = "<%d octets>" % len(x)
         elif k == "bpdu":
-            o[k] = [brief(s) for s in x]
+            o[k] = [brief(s) for s in x[:MAX_BRIEF]] + (["... %d more" % (len(x) - MAX_BRIEF)] if len(x) > MAX_BRIEF else [])
         else:
             o[k] = x
     return str(o)
@@ -600,7 +644,7 @@ def base_vals(pdu, slot=0, variant=0, k=0):
 def work_fields(item):
     """B2: boundary products of the plain fields of one class."""
     _, pdu, quick = item
-    out, cov = [], new_cov()
+    out, cov = _begin()
     if pdu in ("v0tx", "v1tx"):
         for tn, fn, pwr, n in itertools.product(TN_ALL, FN_B, PWR_B, (0, 1, 148, 444, 445)):
             for pat in (("bits", "ff") if n in (148, 444) else ("ramp",)):
@@ -680,7 +724,7 @@ def build_with_mts(pdu, k, pos, nope, mod, tsc, blen, variant):
 def work_mts(item):
     """B1 + B7: every MTS octet, with every candidate burst length, at every PDU position."""
     _, pdu, quick = item
-    out, cov = [], new_cov()
+    out, cov = _begin()
     for (k, pos) in mts_targets(pdu):
         for nope, mod, tsc in itertools.product((0, 1), range(16), range(8)):
             lens = sorted(set(LENS) | ({R2.burst_len(mod)} if R2.burst_len(mod) else set()))
@@ -741,7 +785,7 @@ def bases(pdu, quick):
 def work_bits(item):
     """B3 reserved bits set on receipt, B4 version nibble, B5 truncation / trailing octets."""
     _, pdu, bi, quick = item
-    out, cov = [], new_cov()
+    out, cov = _begin()
     v = bases(pdu, quick)[bi]
     canon = ref_encode(pdu, v)
     verdict = ref_decode(pdu, canon)
@@ -786,7 +830,7 @@ def work_bits(item):
 def work_batch(item):
     """B6: v2 datagrams with batched PDUs: every assignment of SLOTS to the first PDU and k batched PDUs."""
     _, pdu, kind, a, b = item
-    out, cov = [], new_cov()
+    out, cov = _begin()
     d = pdu[2:]
     if kind == "product":               # a = slot index of the first PDU, b = k
         for combo in itertools.product(SLOTS, repeat=b):
@@ -809,7 +853,7 @@ def work_batch(item):
 
 def work_msgs(item):
     item, quick = item
-    out, cov = [], new_cov()
+    out, cov = _begin()
     sample = None
     for spec in msg_specs(item, quick):
         judge_msg(spec, out, cov)
@@ -818,6 +862,181 @@ def work_msgs(item):
     if sample and item[0] == "A-rx1" and item[1:] == ("32QAM", 1):
         res["samples"] = [sample]
     return res
+
+
+# ---------------------------------------------------------------------------
+# history leg: the same definition objects (and fresh ones) used for one datagram after another
+
+PDU_CLASS = {"v0rx": "PDUv0Rx", "v0tx": "PDUv0Tx", "v1rx": "PDUv1Rx", "v1tx": "PDUv1Tx", "v2rx": "PDUv2Rx",
+             "v2tx": "PDUv2Tx"}
+
+
+def history_contents(quick):
+    """[(class, content)]: every class, v2 with 0..3 batched PDUs (two contents each), NOPE and burst PDUs"""
+    d = []
+    for pdu in ("v2rx", "v2tx"):
+        for k in range(4):
+            for variant in ((0,) if quick and k in (1, 3) else (0, 1)):
+                slots = [SLOTS[(3 * k + 5 * i + 7 * variant) % len(SLOTS)] for i in range(k + 1)]
+                if variant and k:
+                    slots[-1] = "nope"
+                d.append((pdu, v2_vals(pdu[2:], slots, variant)))
+    for slot in (0, 5, "nope", 13):
+        d.append(("v1rx", base_vals("v1rx", slot, 1)))
+    for variant in range(4):
+        d.append(("v0rx", base_vals("v0rx", 0, variant)))
+    for pdu in ("v0tx", "v1tx"):
+        for variant in (0, 1):
+            d.append((pdu, base_vals(pdu, 0, variant)))
+    return d
+
+
+def history_pair(p1, v1, p2, v2, fresh, out, cov, case, sig):
+    """decode d1, keep the result, decode d2: the second result is d2's content, the first one is unchanged;
+    the same for to_bytes().  fresh=False: the process-wide definition objects; True: new objects for this pair.
+    sig(which, signature) records how each content came out, so that the caller can tell a definition that is
+    simply wrong for a content from one whose result depends on what it processed before."""
+    e = env()
+    if fresh:
+        P1 = getattr(e["tp"], PDU_CLASS[p1])()
+        P2 = P1 if (p1 == p2 and v1 is v2) else getattr(e["tp"], PDU_CLASS[p2])()
+    else:
+        P1, P2 = e["pdu"][p1], e["pdu"][p2]
+    who = "%s-then-%s" % (p1, p2)
+    b1, b2 = ref_encode(p1, v1), ref_encode(p2, v2)
+    exp1, exp2 = ref_decode(p1, b1), ref_decode(p2, b2)
+    if exp1[0] != "ok" or exp2[0] != "ok":
+        raise HarnessError("history content is not well-formed per the reference")
+    exp1, exp2 = exp1[1], exp2[1]
+    cov["evaluations"] += 1
+    cov["history_pairs"] += 1
+    cov["history_pairs_fresh" if fresh else "history_pairs_shared"] += 1
+    k1, k2 = len(v1.get("bpdu", [])), len(v2.get("bpdu", []))
+    try:
+        P1.from_bytes(b1)
+        if oversized(P1.c, b1) or len(P1.c.get("bpdu", [])) > 64:
+            sig(1, "dec:runaway:%d" % len(P1.c["bpdu"]))
+            out.append(("C17:history:decode:runaway-result:%s" % who, case,
+                        "first from_bytes(): %d batched PDUs decoded from a %d-octet datagram holding %d"
+                        % (len(P1.c["bpdu"]), len(b1), k1)))
+            return
+        kept = dict(P1.c)                      # the nested list / dicts are the objects from_bytes() produced
+        snap = copy_vals(kept)
+        P2.from_bytes(b2)
+        if oversized(P2.c, b2) or len(P2.c.get("bpdu", [])) > 64:
+            sig(2, "dec:runaway:%d" % len(P2.c["bpdu"]))
+            out.append(("C17:history:decode:runaway-result:%s" % who, case,
+                        "from_bytes() of a datagram with %d batched PDUs after one with %d returned %d batched PDUs"
+                        % (k2, k1, len(P2.c["bpdu"]))))
+            return
+        second = copy_vals(P2.c)
+    except BaseException as ex:
+        sig(2, "dec:raises-%s" % type(ex).__name__)
+        out.append(("C17:history:decode:raises-%s:%s" % (type(ex).__name__, who), case,
+                    "from_bytes(d1) then from_bytes(d2) raised %s" % root_cause(ex)))
+        return
+    d = first_diff(exp1, snap)
+    sig(1, "dec:%s:%d" % (d or "ok", len(snap.get("bpdu", []))))
+    if d:
+        out.append(("C17:history:decode:first-result:%s:field-%s" % (who, d), case,
+                    "first from_bytes(): expected %s, got %s" % (brief(exp1), brief(snap))))
+        return
+    d = first_diff(exp2, second)
+    sig(2, "dec:%s:%d" % (d or "ok", len(second.get("bpdu", []))))
+    if d:
+        out.append(("C17:history:decode:second-result:%s:field-%s" % (who, d), case,
+                    "from_bytes() of a %s datagram with %d batched PDUs after a %s datagram with %d: field %s differs; "
+                    "expected %s, got %s" % (p2, k2, p1, k1, d, brief(exp2), brief(second))))
+        return
+    if "bpdu" in kept and len(kept["bpdu"]) > 64:
+        d = "bpdu(count)"
+    else:
+        d = first_diff(snap, kept)
+    if d:
+        sig(0, "changed")
+        out.append(("C17:history:decode:first-result-changed:%s:field-%s" % (who, d), case,
+                    "the content decoded first (%s, %d batched PDUs) changed when the next datagram (%s, %d batched "
+                    "PDUs) was decoded: field %s" % (p1, k1, p2, k2, d)))
+        return
+    # encoding
+    try:
+        P1.c = copy_vals(v1)
+        o1 = P1.to_bytes()
+        c1 = bytes(o1)
+        P2.c = copy_vals(v2)
+        o2 = P2.to_bytes()
+    except BaseException as ex:
+        sig(2, "enc:raises-%s" % type(ex).__name__)
+        out.append(("C17:history:encode:raises-%s:%s" % (type(ex).__name__, who), case,
+                    "to_bytes(c1) then to_bytes(c2) raised %s" % root_cause(ex)))
+        return
+    sig(1, "enc:%d:%d" % (len(c1), diff_at(c1, b1) if c1 != b1 else -1))
+    if bytes(o1) != c1:
+        sig(0, "changed")
+    if c1 != b1 or bytes(o1) != c1:
+        out.append(("C17:history:encode:first-result:%s" % who, case,
+                    "first to_bytes() gave %d octets (canonical %d), differs at offset %d%s"
+                    % (len(c1), len(b1), diff_at(c1, b1), "; the returned buffer changed afterwards" if bytes(o1) != c1
+                       else "")))
+        return
+    sig(2, "enc:%d:%d" % (len(bytes(o2)), diff_at(bytes(o2), b2) if bytes(o2) != b2 else -1))
+    if bytes(o2) != b2:
+        out.append(("C17:history:encode:second-result:%s" % who, case,
+                    "to_bytes() of a %s content with %d batched PDUs after a %s content with %d: %d octets, canonical %d, "
+                    "differs at offset %d" % (p2, k2, p1, k1, len(bytes(o2)), len(b2), diff_at(bytes(o2), b2))))
+
+
+def history_leg(quick, only_pair=None):
+    """All ordered pairs (equal ones included) of the history contents, first through the process-wide definition
+    objects, then through fresh objects per pair; Rx/Tx and v0/v1/v2 definitions alternate in this one process.
+    The leg is a fixed sequence of calls starting from a fresh process, so a violation is replayed by running the
+    sequence again up to its pair (only_pair).
+    -> {'cov', 'viol', 'history_dependent'}: history_dependent is True when some content came out differently at
+    different points of the sequence (or a kept result changed); when every wrong content is wrong in the same way
+    every time, the definition is simply wrong for it and the contents are handed to the single-datagram judges."""
+    out, cov = Budget(), new_cov()
+    contents = history_contents(quick)
+    sigs = {}
+    flags = {"changed": False}
+    idx = 0
+    stop = False
+    try:
+        for fresh in (False, True):
+            for i1, (p1, v1) in enumerate(contents):
+                for i2, (p2, v2) in enumerate(contents):
+                    def sig(which, s, i1=i1, i2=i2):
+                        if which == 0:
+                            flags["changed"] = True
+                        else:
+                            sigs.setdefault((i1 if which == 1 else i2, s[:3]), set()).add(s)
+                    case = {"k": "hist", "quick": quick, "pair": idx, "fresh": fresh, "p1": p1, "p2": p2,
+                            "k1": len(v1.get("bpdu", [])), "k2": len(v2.get("bpdu", []))}
+                    n0 = len(out)
+                    if only_pair is not None and idx == only_pair:
+                        del out[:]
+                        n0 = 0
+                    history_pair(p1, v1, p2, v2, fresh, out, cov, case, sig)
+                    if only_pair is not None and idx == only_pair:
+                        return {"cov": dict(cov), "viol": list(out)[n0:], "history_dependent": True}
+                    idx += 1
+    except StopItem:
+        cov["work_items_cut_short"] += 1
+        if only_pair is not None:
+            return {"cov": dict(cov), "viol": [v for v in out if v[1]["pair"] == only_pair], "history_dependent": True}
+    cov["history_contents"] = len(contents)
+    dependent = flags["changed"] or any(len(v) > 1 for v in sigs.values())
+    viol = list(out)
+    if viol and not dependent:
+        # every wrong content is wrong the same way each time: report it through the single-datagram judges
+        bad = sorted(set(i for (i, _), ss in sigs.items() if any(not (x.startswith("dec:ok") or x.endswith(":-1")) for x in ss)))
+        viol = []
+        for i in bad:
+            p, v = contents[i]
+            try:
+                judge_encode(p, v, "history-content", viol, cov)
+            except StopItem:
+                pass
+    return {"cov": dict(cov), "viol": viol, "history_dependent": bool(viol) and dependent}
 
 
 class Counter(dict):
@@ -836,18 +1055,25 @@ def new_cov():
 
 def dispatch(item):
     kind = item[0]
-    if kind == "A":
-        r = work_msgs(item[1:])
-    elif kind == "fields":
-        r = work_fields(item)
-    elif kind == "mts":
-        r = work_mts(item)
-    elif kind == "bits":
-        r = work_bits(item)
-    elif kind == "batch":
-        r = work_batch(item)
-    else:
-        raise HarnessError("work item %r" % (item,))
+    out, cov = Budget(), new_cov()
+    _cur.update(out=out, cov=cov)
+    try:
+        if kind == "A":
+            r = work_msgs(item[1:])
+        elif kind == "fields":
+            r = work_fields(item)
+        elif kind == "mts":
+            r = work_mts(item)
+        elif kind == "bits":
+            r = work_bits(item)
+        elif kind == "batch":
+            r = work_batch(item)
+        else:
+            raise HarnessError("work item %r" % (item,))
+    except StopItem:
+        cov["work_items_cut_short"] += 1
+        r = {"cov": cov, "viol": list(out)[:30]}
+    r["nviol_extra"] = max(0, out.seen - len(r["viol"]))
     r["cov"] = dict(r["cov"])
     return r
 
@@ -881,6 +1107,21 @@ def work_items(quick):
 
 
 def run(ctx):
+    # history leg first, in this process: if one decode / encode depends on an earlier one, the verdicts of the
+    # single-datagram legs (and their replays, which run one case in a fresh process) would mean nothing
+    h = history_leg(ctx.quick)
+    ctx.merge(h)
+    if h["history_dependent"]:
+        c = ctx.cov
+        c["stateless_legs_skipped"] = 1
+        c["distinct_nontrivial"] = c.get("history_pairs", 0)
+        c["nontrivial_inputs"] = c["distinct_nontrivial"]
+        c["mts_octets"] = 0
+        c["rule"] = ("history leg only (ordered pairs of %d contents over all six definitions, through shared and fresh "
+                     "definition objects); it reported violations, i.e. results of the definitions depend on earlier "
+                     "calls, so the single-datagram legs were not run" % c.get("history_contents", 0))
+        c["exhaustive"] = False
+        return
     items = work_items(ctx.quick)
     # big items first
     order = sorted(range(len(items)), key=lambda i: -(items[i][0] == "batch" and items[i][2] == "product") * items[i][-1])
@@ -902,13 +1143,17 @@ def run(ctx):
                  "PDU position (first, 1st and 2nd batched), every reserved bit set alone and together, all 16 version "
                  "nibbles, every truncation offset and 6 trailing-octet strings of %d base PDUs, and for v2 every "
                  "assignment of {15 legal MOD codes, NOPE} to the first PDU and 0..%d batched PDUs%s. Each case is "
-                 "compared with the layout reference (vlib.ref.trxd, vlib.ref.trxd_v2). non-trivial = distinct codec "
+                 "compared with the layout reference (vlib.ref.trxd, vlib.ref.trxd_v2). HISTORY leg (run first, in one "
+                 "process): all ordered pairs (d1, d2) of %d contents (v2 Rx/Tx with 0..3 batched PDUs, v1 Rx burst / "
+                 "NOPE, v0 Rx 148/444 with and without padding, v0/v1 Tx), through the process-wide definition objects "
+                 "and through fresh ones: from_bytes(d1), keep, from_bytes(d2) - second result = d2's content, first "
+                 "result unchanged; likewise to_bytes(). A work item stops after %d recorded violations. non-trivial = distinct codec "
                  "messages + distinct (class, datagram) decode inputs the reference decides (accept or reject), "
                  "counted over the whole run by hash; cases the statement leaves open (odd v0 "
                  "lengths) are only required not to crash or misread"
                  % ("" if ctx.quick else " and TSC", sum(len(bases(p, ctx.quick)) for p in PDU_NAMES), kfull,
                     "" if ctx.quick else "; for 5..8 batched PDUs every code at every position over every uniform "
-                    "background plus 48 cyclic assignments"))
+                    "background plus 48 cyclic assignments", c.get("history_contents", 0), LIMIT))
     c["exhaustive"] = True
     ctx.assumptions += [
         "MOD codes 11xx are AQPSK with two TSC-set bits (TRXD description: '1 1 X X AQPSK, 4 TSC sets'; the MTS class "
@@ -940,6 +1185,8 @@ def replay(ctx, case):
         judge_decode(case["pdu"], bytes.fromhex(case["data"]), case["tag"], out, cov)
     elif case["k"] == "enc":
         judge_encode(case["pdu"], _unhex(case["vals"]), case["tag"], out, cov)
+    elif case["k"] == "hist":
+        out = history_leg(bool(case["quick"]), only_pair=int(case["pair"]))["viol"]
     else:
         raise HarnessError("unknown case kind %r" % case.get("k"))
     for v in out:
